@@ -104,3 +104,14 @@ func readJSONLines(path string, each func(line []byte)) {
 		fatal("read %s: %v", path, err)
 	}
 }
+
+func panicString(r any) string {
+	switch t := r.(type) {
+	case error:
+		return t.Error()
+	case string:
+		return t
+	default:
+		return fmt.Sprint(r)
+	}
+}
